@@ -171,6 +171,50 @@ def end_guards(body):
     return out
 
 
+_PP_CACHE = {}
+
+
+def _is_persisted_position(body, l):
+    """the Option held in local l (or the Option it was `take()`n / copied from) is Some only with a position that was read
+    from the persisted index: every Some(..) built for it has a BlockPos field (the result of WalIndex::get) among its origins"""
+    from .core.readflags import _value_defs
+    key = (id(body), l)
+    if key in _PP_CACHE:
+        return _PP_CACHE[key]
+    _PP_CACHE[key] = False
+    roots, work, hops = set(), [l], 0
+    while work and hops < 12:
+        hops += 1
+        x = work.pop()
+        if x in roots:
+            continue
+        roots.add(x)
+        for site, rv in _value_defs(body, x):
+            if rv["k"] == "call":
+                cn = strip_generics(rv["node"].get("callee") or "")
+                if re.search(r"Option(::<[^>]*>)?::(take|clone|as_ref|as_mut|copied|cloned)$|mem::(take|replace)$", cn) and rv["node"]["args"]:
+                    bl = borrowed_local(body, rv["node"]["args"][0])
+                    if bl is None:
+                        bl = op_local(body.resolve_copy(rv["node"]["args"][0]))
+                    if bl is not None:
+                        work.append(bl)
+    somes = []
+    for x in roots:
+        for site, rv in _value_defs(body, x):
+            if rv["k"] == "agg" and rv.get("akind") == "adt" and rv.get("variant") == "Some":
+                somes.append(rv)
+    ok = bool(somes)
+    for rv in somes:
+        src, _, _ = origins(body, rv["ops"][0], follow_all_calls=True)
+        if not any(o.kind == "field" and isinstance(o.what, tuple) and str(o.what[0]).endswith("index::BlockPos") for o in src):
+            # `Some((active_block.id, 0))`-style re-initialisations of the same variable are position-preserving
+            # only when written under checkpoint; they are judged as ordinary stores where they are used
+            if not any(o.kind == "const" for o in src):
+                ok = False
+    _PP_CACHE[key] = ok
+    return ok
+
+
 def exception_class(body, site, kinds):
     """Return the name of the frozen exception class a *store* effect belongs to, or None."""
     if len(kinds) != 1:
@@ -188,10 +232,11 @@ def exception_class(body, site, kinds):
         for T in all_tests(body):
             if T.kind == "discr" and not T.place["p"]:
                 ty = body.local_ty(T.place["l"])
-                if ty == "std::option::Option<(u64, u64)>":
-                    e = T.variant_edges.get(1)
-                    if e and body.edge_guards(e, site.bb):
-                        return "fold"
+                e = T.variant_edges.get(1)
+                if not (e and body.edge_guards(e, site.bb)) or not ty.startswith("std::option::Option<"):
+                    continue
+                if ty == "std::option::Option<(u64, u64)>" or _is_persisted_position(body, T.place["l"]):
+                    return "fold"
     # exhausted-block advance
     if field in ("cur_block_idx", "cur_block_offset"):
         for edge, off_op in end_guards(body):
